@@ -351,7 +351,11 @@ func (q *depQuery) compute(v ssa.Value, path []int, depth int) bool {
 		return false
 	case *ssa.Alloc:
 		// the pointer itself: anything stored into the variable
-		return q.allocRead(x, nil, depth)
+		return q.allocRead(x, nil, depth) || q.elementWrites(x, depth, 0)
+	case *ssa.MakeSlice:
+		return q.dep(x.Len, nil, depth+1) || q.elementWrites(x, depth, 0)
+	case *ssa.Slice:
+		return q.dep(x.X, nil, depth+1) || q.elementWrites(x, depth, 0)
 	case *ssa.UnOp:
 		if x.Op != token.MUL {
 			return q.dep(x.X, nil, depth+1)
@@ -410,6 +414,9 @@ func (q *depQuery) compute(v ssa.Value, path []int, depth int) bool {
 		if cc.IsInvoke() && q.dep(cc.Value, nil, depth+1) {
 			return true
 		}
+		if q.receiverState(x, depth) {
+			return true
+		}
 		return q.calleeResults(x, 0, path, depth)
 	case *ssa.Extract:
 		if c, ok := x.Tuple.(*ssa.Call); ok {
@@ -422,6 +429,9 @@ func (q *depQuery) compute(v ssa.Value, path []int, depth int) bool {
 			if cc.IsInvoke() && q.dep(cc.Value, nil, depth+1) {
 				return true
 			}
+			if q.receiverState(c, depth) {
+				return true
+			}
 			return q.calleeResults(c, x.Index, path, depth)
 		}
 		return q.dep(x.Tuple, nil, depth+1)
@@ -431,6 +441,116 @@ func (q *depQuery) compute(v ssa.Value, path []int, depth int) bool {
 				if *op != nil && q.dep(*op, nil, depth+1) {
 					return true
 				}
+			}
+		}
+	}
+	return false
+}
+
+// elementWrites: what is written into the elements of a locally created slice/array value:
+// stores through its element addresses, copy into it, library calls that receive it, re-slicings.
+func (q *depQuery) elementWrites(v ssa.Value, depth, lvl int) bool {
+	refs := v.Referrers()
+	if refs == nil || lvl > 3 {
+		return false
+	}
+	for _, ref := range *refs {
+		switch x := ref.(type) {
+		case *ssa.IndexAddr:
+			if x.X != v || x.Referrers() == nil {
+				continue
+			}
+			for _, r2 := range *x.Referrers() {
+				if st, ok := r2.(*ssa.Store); ok && st.Addr == ssa.Value(x) && q.dep(st.Val, nil, depth+1) {
+					return true
+				}
+			}
+		case *ssa.Slice:
+			if x.X == v && q.elementWrites(x, depth, lvl+1) {
+				return true
+			}
+		case *ssa.Call:
+			cc := x.Common()
+			isArg := false
+			for _, a := range cc.Args {
+				if a == v {
+					isArg = true
+				}
+			}
+			if !isArg {
+				continue
+			}
+			if callee := cc.StaticCallee(); callee != nil && q.p.isRepoFunc(callee) {
+				continue // repository callees are followed through their results only
+			}
+			if b, ok := cc.Value.(*ssa.Builtin); ok && b.Name() != "copy" {
+				continue // len, cap, append(v, ...) do not write v's elements in place
+			}
+			if b, ok := cc.Value.(*ssa.Builtin); ok && b.Name() == "copy" && cc.Args[0] != v {
+				continue // v is the source
+			}
+			for _, a := range cc.Args {
+				if a != v && q.dep(a, nil, depth+1) {
+					return true
+				}
+			}
+			if cc.IsInvoke() && q.dep(cc.Value, nil, depth+1) {
+				return true
+			}
+		}
+	}
+	return false
+}
+
+// readOnlyLibMethods: methods of standard-library state objects (hash.Hash, bytes.Buffer, strings.Builder,
+// bufio, ...) that do not change the receiver.
+var readOnlyLibMethods = map[string]bool{"Sum": true, "Size": true, "BlockSize": true, "Bytes": true, "String": true, "Len": true, "Cap": true, "Available": true}
+
+// receiverState: the result of a method of a library object (hash, buffer, builder, ...) depends on the
+// arguments of every other method call made on the same receiver value (its state is not modelled otherwise).
+func (q *depQuery) receiverState(c *ssa.Call, depth int) bool {
+	cc := c.Common()
+	var recv ssa.Value
+	if cc.IsInvoke() {
+		recv = cc.Value
+	} else if callee := cc.StaticCallee(); callee != nil && callee.Signature.Recv() != nil && !q.p.isRepoFunc(callee) && len(cc.Args) > 0 {
+		recv = cc.Args[0]
+	}
+	if recv == nil || recv.Referrers() == nil {
+		return false
+	}
+	if _, isPrm := recv.(*ssa.Parameter); isPrm {
+		return false // an object handed in by the caller: its earlier use is the caller's business
+	}
+	for _, ref := range *recv.Referrers() {
+		oc, ok := ref.(*ssa.Call)
+		if !ok || oc == c {
+			continue
+		}
+		occ := oc.Common()
+		same := false
+		args := occ.Args
+		if occ.IsInvoke() && occ.Value == recv {
+			same = true
+		} else if len(args) > 0 && args[0] == recv && occ.StaticCallee() != nil && occ.StaticCallee().Signature.Recv() != nil {
+			same = true
+			args = args[1:]
+		}
+		if !same {
+			continue
+		}
+		mname := ""
+		if occ.IsInvoke() {
+			mname = occ.Method.Name()
+		} else {
+			mname = occ.StaticCallee().Name()
+		}
+		if readOnlyLibMethods[mname] {
+			continue // documented not to change the receiver's state
+		}
+		for _, a := range args {
+			if q.dep(a, nil, depth+1) {
+				return true
 			}
 		}
 	}
